@@ -293,6 +293,27 @@ func sortedAt(v ssa.Value, at ssa.Instruction, depth int) (bool, string) {
 		}
 	}
 	switch x := v.(type) {
+	case *ssa.Parameter:
+		// a private helper is handed the slice: sorted if it is at every call site
+		h := x.Parent()
+		sites := privateCallSites(h)
+		pi := -1
+		for i, q := range h.Params {
+			if q == x {
+				pi = i
+			}
+		}
+		if len(sites) > 0 && pi >= 0 {
+			for _, s := range sites {
+				if pi >= len(s.Common().Args) {
+					return false, "call site does not bind the slice parameter"
+				}
+				if ok, why := sortedAt(s.Common().Args[pi], s, depth+1); !ok {
+					return false, why
+				}
+			}
+			return true, ""
+		}
 	case *ssa.Phi:
 		for _, e := range x.Edges {
 			if ok, why := sortedAt(e, at, depth+1); !ok {
@@ -390,6 +411,7 @@ func cellSortedAt(al *ssa.Alloc, site ssa.Instruction) bool {
 		u, ok := facts.Strip(v).(*ssa.UnOp)
 		return ok && u.Op == token.MUL && u.X == ssa.Value(al)
 	}
+	ascending := ascendingSubsequenceAppends(al)
 	ff := facts.FlowFuncs{
 		Instr: func(in ssa.Instruction, t facts.Tokens) {
 			switch x := in.(type) {
@@ -411,6 +433,9 @@ func cellSortedAt(al *ssa.Alloc, site ssa.Instruction) bool {
 						return
 					}
 				}
+				if ascending[x] && t["sorted"] {
+					return // one more element of a sorted slice, taken in ascending index order
+				}
 				delete(t, "sorted")
 			case ssa.CallInstruction:
 				if s, _, ok := isSortCall(x); ok && isLoadOfCell(s) {
@@ -421,6 +446,154 @@ func cellSortedAt(al *ssa.Alloc, site ssa.Instruction) bool {
 	}
 	flow := facts.PathFlow(owner, ff)
 	return facts.AllAt(ff, flow, site, func(t facts.Tokens) bool { return t["sorted"] })
+}
+
+// ascendingSubsequenceAppends: the stores `cell = append(cell, S[i])` through
+// which the cell is filled with a subsequence of ONE sorted slice S in
+// ascending index order: constant indices first (each site dominating the
+// next, indices non-decreasing), then at most one site inside a counted loop
+// whose index is the loop variable starting at or above the last constant
+// index and stepping by +1. Such a cell, empty before the first of them, is
+// sorted after each. Returns nil unless every non-nil store to the cell is of
+// that form.
+func ascendingSubsequenceAppends(al *ssa.Alloc) map[*ssa.Store]bool {
+	type site struct {
+		st    *ssa.Store
+		src   ssa.Value
+		k     int64
+		isK   bool
+		loopI *ssa.Phi
+	}
+	var sites []site
+	for _, st := range facts.StoresTo(al) {
+		if facts.IsNilConst(facts.Strip(st.Val)) {
+			continue
+		}
+		call, ok := st.Val.(*ssa.Call)
+		if !ok {
+			return nil
+		}
+		bi, ok := call.Call.Value.(*ssa.Builtin)
+		if !ok || bi.Name() != "append" || len(call.Call.Args) != 2 {
+			return nil
+		}
+		u, ok := facts.Strip(call.Call.Args[0]).(*ssa.UnOp)
+		if !ok || u.Op != token.MUL || u.X != ssa.Value(al) {
+			return nil
+		}
+		// exactly one appended element: a slice of a one-element varargs array
+		sl, ok := call.Call.Args[1].(*ssa.Slice)
+		if !ok {
+			return nil
+		}
+		arr, ok := sl.X.(*ssa.Alloc)
+		if !ok {
+			return nil
+		}
+		if n, isArr := arrLen(arr); !isArr || n != 1 {
+			return nil
+		}
+		var elem ssa.Value
+		for _, ref := range *arr.Referrers() {
+			if ia, ok := ref.(*ssa.IndexAddr); ok {
+				for _, s2 := range facts.StoresTo(ia) {
+					elem = s2.Val
+				}
+			}
+		}
+		eu, ok := elem.(*ssa.UnOp)
+		if !ok || eu.Op != token.MUL {
+			return nil
+		}
+		ia, ok := eu.X.(*ssa.IndexAddr)
+		if !ok {
+			return nil
+		}
+		s1 := site{st: st, src: ia.X}
+		if k, isK := facts.ConstInt(ia.Index); isK {
+			s1.k, s1.isK = k, true
+		} else if ph, isPhi := ia.Index.(*ssa.Phi); isPhi {
+			s1.loopI = ph
+		} else {
+			return nil
+		}
+		sites = append(sites, s1)
+	}
+	if len(sites) == 0 {
+		return nil
+	}
+	src := sites[0].src
+	var loop *site
+	var consts []site
+	for i := range sites {
+		if sites[i].src != src {
+			return nil
+		}
+		if ok, _ := sortedAt(src, sites[i].st, 1); !ok {
+			return nil
+		}
+		if sites[i].isK {
+			consts = append(consts, sites[i])
+		} else {
+			if loop != nil {
+				return nil
+			}
+			loop = &sites[i]
+		}
+	}
+	// constant sites: totally ordered by dominance with non-decreasing indices
+	for i := range consts {
+		for j := range consts {
+			if i != j && facts.Dominates(consts[i].st, consts[j].st) && consts[i].k > consts[j].k {
+				return nil
+			}
+			if i != j && !facts.Dominates(consts[i].st, consts[j].st) && !facts.Dominates(consts[j].st, consts[i].st) {
+				return nil
+			}
+		}
+	}
+	if loop != nil {
+		ph := loop.loopI
+		if len(ph.Edges) != 2 {
+			return nil
+		}
+		var init int64
+		okInit, okStep := false, false
+		for _, e := range ph.Edges {
+			if k, isK := facts.ConstInt(e); isK {
+				init, okInit = k, true
+			} else if bo, isBo := e.(*ssa.BinOp); isBo && bo.Op == token.ADD && bo.X == ssa.Value(ph) {
+				if c, isC := facts.ConstInt(bo.Y); isC && c == 1 {
+					okStep = true
+				}
+			}
+		}
+		if !okInit || !okStep {
+			return nil
+		}
+		for _, cs := range consts {
+			if cs.k > init || !facts.Dominates(cs.st, ph) {
+				return nil
+			}
+		}
+	}
+	out := map[*ssa.Store]bool{}
+	for _, s1 := range sites {
+		out[s1.st] = true
+	}
+	return out
+}
+
+func arrLen(al *ssa.Alloc) (int64, bool) {
+	p, ok := al.Type().Underlying().(*types.Pointer)
+	if !ok {
+		return 0, false
+	}
+	a, ok := p.Elem().Underlying().(*types.Array)
+	if !ok {
+		return 0, false
+	}
+	return a.Len(), true
 }
 
 func c05Sorted(c *core.Ctx) {
@@ -639,6 +812,46 @@ func isSeqType(t types.Type) bool {
 	return strings.Contains(t.String(), "ociregistry.Seq[")
 }
 
+// seqDeliversError: the sequence value v ends by handing an error to its
+// consumer: ErrorSeq(err), a producer literal that yields a non-nil error, or
+// the result of a module function all of whose results are of that kind.
+func seqDeliversError(v ssa.Value, depth int) bool {
+	switch x := facts.Resolve(v).(type) {
+	case *ssa.Call:
+		if hasSuffix(facts.CalleeName(&x.Call), "ociregistry.ErrorSeq") {
+			return !facts.IsNilConst(facts.Strip(x.Call.Args[0]))
+		}
+		h := x.Call.StaticCallee()
+		if h == nil || depth <= 0 || !load.InModule(h) {
+			return false
+		}
+		if o := h.Origin(); o != nil && (h.Blocks == nil || h.Synthetic != "") {
+			h = o
+		}
+		rets := returnsOf(h)
+		if h.Blocks == nil || len(rets) == 0 {
+			return false
+		}
+		for _, r := range rets {
+			if len(r.Results) != 1 || !seqDeliversError(facts.RetVal(r, 0), depth-1) {
+				return false
+			}
+		}
+		return true
+	case *ssa.MakeClosure:
+		lit := x.Fn.(*ssa.Function)
+		for _, ci := range facts.CallsIn(lit) {
+			if _, isY := isYieldCall(ci); isY {
+				a := ci.Common().Args
+				if len(a) == 2 && !facts.IsNilConst(facts.Strip(a[1])) {
+					return true
+				}
+			}
+		}
+	}
+	return false
+}
+
 func c05ErrorsDelivered(c *core.Ctx) {
 	n := 0
 	for _, fn := range c.P.ModuleFunctions("") {
@@ -693,22 +906,7 @@ func c05ErrorsDelivered(c *core.Ctx) {
 					continue
 				}
 				n++
-				ok := false
-				if call, isCall := facts.Resolve(r.Results[0]).(*ssa.Call); isCall && hasSuffix(facts.CalleeName(&call.Call), "ociregistry.ErrorSeq") {
-					ok = !facts.IsNilConst(facts.Strip(call.Call.Args[0]))
-				}
-				// or a producer literal that itself ends by yielding an error (items, then the error)
-				if mc, isMC := facts.Resolve(r.Results[0]).(*ssa.MakeClosure); isMC {
-					lit := mc.Fn.(*ssa.Function)
-					for _, ci := range facts.CallsIn(lit) {
-						if _, isY := isYieldCall(ci); isY {
-							a := ci.Common().Args
-							if len(a) == 2 && !facts.IsNilConst(facts.Strip(a[1])) {
-								ok = true
-							}
-						}
-					}
-				}
+				ok := seqDeliversError(r.Results[0], 2)
 				c.Check(ok, "C05.R3", facts.FuncName(fn)+"/bailout-ErrorSeq", r.Pos(), "bails out with ErrorSeq(err)", "a Seq-returning function returns under err != nil something other than ErrorSeq(err): the error is lost and the listing looks complete")
 			}
 		}
@@ -839,36 +1037,32 @@ func c05Continuation(c *core.Ctx) {
 		c.Fail("C05.R4", "anchor/ociserver.registry", 0, "ociserver.registry not found")
 		return
 	}
-	mk := c.P.Method(types.NewPointer(srvT), "makeNextLink")
 	nl := c.P.Method(types.NewPointer(srvT), "nextListResults")
-	if mk == nil || nl == nil {
-		c.Fail("C05.R4", "anchor/ociserver.nextListResults", 0, "server nextListResults / makeNextLink not found")
+	if nl == nil {
+		c.Fail("C05.R4", "anchor/ociserver.nextListResults", 0, "server nextListResults not found")
 		return
 	}
 	c.Analysed(facts.FuncName(nl))
+	// the Link's "last" parameter — set here or in a private helper that is handed
+	// the item — is the final element of the page being returned
 	found := false
-	for _, ci := range facts.CallsIn(nl) {
-		if ci.Common().StaticCallee() != mk {
-			continue
+	for _, f := range withHelpers(nl) {
+		for _, ci := range facts.CallsIn(f) {
+			if facts.CalleeName(ci.Common()) != "(net/url.Values).Set" {
+				continue
+			}
+			a := ci.Common().Args
+			if s, isS := facts.ConstString(a[1]); !isS || s != "last" {
+				continue
+			}
+			found = true
+			_, ok := lastElemOf(resolveUp(a[2], nl, 3))
+			c.Check(ok, "C05.R4", "ociserver.nextListResults/link-from-last", ci.Pos(), "Link continues after the final item of the truncated page", "the server's next Link is not built from the final element of the page it returns")
 		}
-		found = true
-		args := ci.Common().Args
-		_, ok := lastElemOf(args[len(args)-1])
-		c.Check(ok, "C05.R4", "ociserver.nextListResults/link-from-last", ci.Pos(), "Link continues after the final item of the truncated page", "the server's next Link is not built from the final element of the page it returns")
 	}
 	if !found {
-		c.Fail("C05.R4", "ociserver.nextListResults/link-from-last", nl.Pos(), "nextListResults never builds a Link")
+		c.Fail("C05.R4", "ociserver.nextListResults/link-from-last", nl.Pos(), `nextListResults never builds a Link with a "last" parameter`)
 	}
-	setLast := false
-	for _, ci := range facts.CallsIn(mk) {
-		if facts.CalleeName(ci.Common()) == "(net/url.Values).Set" {
-			a := ci.Common().Args
-			if s, isS := facts.ConstString(a[1]); isS && s == "last" && argIsParam(a[2], mk, 2) {
-				setLast = true
-			}
-		}
-	}
-	c.Check(setLast, "C05.R4", "ociserver.makeNextLink/last-param", mk.Pos(), `Link sets query "last" to the given item`, `makeNextLink does not set the "last" query parameter to the item it was given`)
 }
 
 // ---- R5
